@@ -6,6 +6,60 @@ static int last_refused;      /* the outermost operation was refused (monitor st
 #undef REFUSED
 #define REFUSED(rc, what, sig) do { if ((rc) >= 0) vfail("ST.refuse", sig, "%s returned %d, expected a negative code", what, (int)(rc)); check_unchanged(&sn, what, sig); if (api_depth == 1) last_refused = 1; } while (0)
 
+/* ---- non-pubsub sources: one register/deregister call per kind ---- */
+static const int SIGS[3] = { SIGUSR1, SIGUSR2, 34 /* SIGRTMIN */ };
+static const m_src_thresh_t THR[3] = { { 0, 1.0 }, { 5, 0 }, { 5, 1.0 } };
+static int task_fn(void *up) { (void)up; return 42; }
+static int src_call(m_mod_t *h, int kind, int key, int reg, int flags, const void *up) {
+    m_src_flags fl = ((flags & 1) ? M_SRC_FD_AUTOCLOSE : 0) | ((flags & 2) ? M_SRC_ONESHOT : 0) | ((flags & 4) ? M_SRC_DUP : 0);
+    switch (kind) {
+    case K_FD: return reg ? m_mod_src_register_fd(h, key == 15 ? -1 : UFD[key].rd, fl, up) : m_mod_src_deregister_fd(h, UFD[key].rd);
+    case K_TMR: { m_src_tmr_t t = { CLOCK_MONOTONIC, key == 15 ? 0 : TPER[key] }; return reg ? m_mod_src_register_tmr(h, &t, fl, up) : m_mod_src_deregister_tmr(h, &t); }
+    case K_SGN: { m_src_sgn_t g = { key == 15 ? 0 : SIGS[key] }; return reg ? m_mod_src_register_sgn(h, &g, fl, up) : m_mod_src_deregister_sgn(h, &g); }
+    case K_PATH: { m_src_path_t pt = { key == 15 ? "" : PATHS[key], 0x100 | 0x200 /* IN_CREATE | IN_DELETE */ }; return reg ? m_mod_src_register_path(h, &pt, fl, up) : m_mod_src_deregister_path(h, &pt); }
+    case K_PID: { m_src_pid_t pd = { key == 15 ? 0 : CHILD[key], 0 }; return reg ? m_mod_src_register_pid(h, &pd, fl, up) : m_mod_src_deregister_pid(h, &pd); }
+    case K_TASK: { m_src_task_t tk = { key + 1, key == 15 ? NULL : task_fn }; return reg ? m_mod_src_register_task(h, &tk, fl, up) : m_mod_src_deregister_task(h, &tk); }
+    case K_THRESH: { m_src_thresh_t th = key == 15 ? (m_src_thresh_t){ 0, 0 } : THR[key]; return reg ? m_mod_src_register_thresh(h, &th, fl, up) : m_mod_src_deregister_thresh(h, &th); }
+    }
+    return -1;
+}
+static const m_src_types KTYPE[NKIND] = { M_SRC_TYPE_FD, M_SRC_TYPE_TMR, M_SRC_TYPE_SGN, M_SRC_TYPE_PATH, M_SRC_TYPE_PID, M_SRC_TYPE_TASK, M_SRC_TYPE_THRESH };
+/* SR.len: the counts reported by the module equal the sizes of the sets (library-internal sources excluded) */
+static void audit_srclen(int s, const char *when) {
+    m_mod_t *h = MD[s].present ? MD[s].h : NULL; if (!h || ctx_hidden()) return;
+    int nsub = 0, per[NKIND] = {0}, tot = 0;
+    for (int q = 0; q < NPAT; q++) nsub += MD[s].sub[q].present;
+    for (int i = 0; i < MAXSRC; i++) if (MD[s].src[i].present) { per[MD[s].src[i].kind]++; tot++; }
+    ssize_t r = m_mod_src_len(h, M_SRC_TYPE_PS);
+    if (r != nsub) vfail("SR.len", "SR.len|ps", "%s reports %zd subscriptions, the set has %d (%s)", MD[s].name, r, nsub, when);
+    for (int k = 0; k < NKIND; k++) { r = m_mod_src_len(h, KTYPE[k]); if (r != per[k]) vfail("SR.len", "SR.len|kind", "%s reports %zd %s sources, the set has %d (%s)", MD[s].name, r, KN[k], per[k], when); }
+    r = m_mod_src_len(h, M_SRC_TYPE_END);
+    if (r != nsub + tot) vfail("SR.len", "SR.len|total", "%s reports %zd sources in total, the sets have %d (%s)", MD[s].name, r, nsub + tot, when);
+}
+
+/* ---- token bucket: success log over virtual time ---- */
+static struct { uint64_t t[64]; int n; int refusals; uint64_t set_at; } TBLOG[NM];
+static const struct { int rate; int burst; } TBCFG[] = { { 0, 0 }, { 1, 1 }, { 2, 1 }, { 1, 3 }, { 1000, 2 } };
+/* returns 1 if the call was refused by the bucket (and checks that this was legitimate) */
+static int tb_account(int s, int rc, const snap_t *sn, const char *what) {
+    mod_t *m = &MD[s];
+    if (m->tb_rate <= 0) { if (rc == -EAGAIN && ON(R_TB)) vfail("TB.off", "TB.off", "%s refused with EAGAIN although no token bucket is configured", what); return 0; }
+    if (rc == -EAGAIN) {
+        TBLOG[s].refusals++;
+        check_unchanged(sn, what, "TB.refuse|effect");
+        if (ON(R_TB) && TBLOG[s].n < m->tb_burst) vfail("TB.refuse", "TB.refuse|early", "%s refused with EAGAIN after only %d successful calls since the bucket (burst %d) was set", what, TBLOG[s].n, m->tb_burst);
+        return 1;
+    }
+    if (rc < 0) return 0;
+    if (TBLOG[s].n < 64) TBLOG[s].t[TBLOG[s].n++] = shim_now_ns;
+    if (ON(R_TB)) for (int i = 0; i < TBLOG[s].n; i++) {     /* every interval ending now */
+        int cnt = TBLOG[s].n - i; double dt = (double)(shim_now_ns - TBLOG[s].t[i]) / 1e9;
+        if (cnt > m->tb_burst + m->tb_rate * dt + 1e-9)
+            vfail("TB.bound", "TB.bound", "%d token-consuming calls of %s succeeded within %.6f s, the bucket allows at most burst %d + rate %d * t", cnt, m->name, dt, m->tb_burst, m->tb_rate);
+    }
+    return 0;
+}
+
 static int inj_at_entry, nmsg_at_entry;
 /* a pipe write was refused during this call (mailbox full): whatever was sent during the call may have vanished for one recipient */
 static void inj_relax(void) {
@@ -214,6 +268,7 @@ static void do_api(op_t op) {
         if (!legal) { if (msg >= 0) MSG[msg].used = 0;
             const char *sg = mflag(s, M_MOD_DENY_PUB) ? "PM.pub" : (op.c == O_PUB && topic >= T_CTX_STARTED) ? "PM.reserved" : op.c == O_PILL ? "ST.refuse|pill" : "ST.refuse|send";
             REFUSED(rc, what, sg); break; }
+        if (tb_account(s, rc, &sn, what)) { if (msg >= 0) { MSG[msg].used = 0; if (MSG[msg].autofree) lg_free((void *)MSG[msg].payload); } break; }
         if (rc) vfail("PS.accept", "PS.accept", "%s returned %d", what, rc);
         int n = mon_send(msg, to, -1);
         if (inj_armed && !shim_inject_write_eagain)      /* a write was refused (mailbox full): that copy may vanish, but must still be accounted for */
@@ -230,10 +285,12 @@ static void do_api(op_t op) {
             m_src_flags fl = (prio == PR_LOW ? M_SRC_PRIO_LOW : prio == PR_HIGH ? M_SRC_PRIO_HIGH : M_SRC_PRIO_NORM) | (oneshot ? M_SRC_ONESHOT : 0);
             rc = m_mod_ps_subscribe(h, PAT[p], fl, &UPV[s][p][upver]);
             if (!legal) { REFUSED(rc, "subscribe", mflag(s, M_MOD_DENY_SUB) ? "PM.sub" : "ST.refuse|subscribe"); break; }
+            if (tb_account(s, rc, &sn, "subscribe")) break;
             if (rc) vfail("SR.set", "SR.set|sub", "subscribe(%s) by %s returned %d (a repeated subscription is updated in place)", PAT[p], MD[s].name, rc);
             MD[s].sub[p] = (sub_t){ 1, prio, oneshot, upver };
         } else {
             rc = m_mod_ps_unsubscribe(h, PAT[p]);
+            if (legal && MD[s].sub[p].present && tb_account(s, rc, &sn, "unsubscribe")) break;
             if (!legal || !MD[s].sub[p].present) { REFUSED(rc, "unsubscribe", !legal && mflag(s, M_MOD_DENY_SUB) ? "PM.sub" : "SR.set|unsub-absent"); break; }
             if (rc) vfail("SR.set", "SR.set|unsub", "unsubscribe(%s) by %s returned %d", PAT[p], MD[s].name, rc);
             MD[s].sub[p].present = 0;
@@ -246,10 +303,12 @@ static void do_api(op_t op) {
         if (op.c == O_BECOME) {
             rc = m_mod_become(h, HANDLER[op.b]);
             if (!legal) { REFUSED(rc, "m_mod_become", "ST.refuse|become"); break; }
+            if (tb_account(s, rc, &sn, "become")) break;
             if (rc) vfail("HD.push", "HD.push", "m_mod_become on RUNNING %s returned %d", MD[s].name, rc);
             if (MD[s].nhs < 8) MD[s].hs[MD[s].nhs++] = op.b;
         } else {
             rc = m_mod_unbecome(h);
+            if (legal && MD[s].nhs && tb_account(s, rc, &sn, "unbecome")) break;
             if (!legal || MD[s].nhs == 0) { REFUSED(rc, "m_mod_unbecome", legal ? "HD.pop-empty" : "ST.refuse|unbecome"); break; }
             if (rc) vfail("HD.pop", "HD.pop", "m_mod_unbecome on RUNNING %s with %d installed handlers returned %d", MD[s].name, MD[s].nhs, rc);
             MD[s].nhs--;
@@ -284,6 +343,39 @@ static void do_api(op_t op) {
             if (want > 0 && !consumed) vfail("SH.count", "SH.count|no-invocation", "m_mod_unstash(%zu) with %d stashed events did not invoke the handler", n, before);
             if (want == 0 && MD[s].ncb[CB_EVT] != ninv) vfail("SH.count", "SH.count|spurious", "m_mod_unstash with nothing stashed invoked the handler");
         }
+        break; }
+    case O_SRC_REG: case O_SRC_DEREG: {
+        m_mod_t *h = handle(s); int kind = op.b >> 4, key = op.b & 15, flags = op.d; take_snap(&sn);
+        snprintf(what, sizeof what, "%s %s source #%d on %s", op.c == O_SRC_REG ? "register" : "deregister", KN[kind], key, MD[s].name);
+        int legal = MD[s].present && !ctx_hidden();
+        int idx = -1, freei = -1;
+        for (int i = 0; i < MAXSRC; i++) { if (MD[s].src[i].present && MD[s].src[i].kind == kind && MD[s].src[i].key == key) idx = i; if (!MD[s].src[i].present && freei < 0) freei = i; }
+        if (op.c == O_SRC_REG) {
+            if (freei < 0) { api_depth--; return; }
+            if (kind == K_FD && key != 15 && legal && idx < 0) shim_user_fd(UFD[key].rd, (flags & 1) != 0);
+            rc = src_call(h, kind, key, 1, flags, &SRCUP[s][freei]);
+            if (!legal || key == 15) { REFUSED(rc, what, key == 15 ? "SR.set|bad-param" : "ST.refuse|src"); if (ON(R_SR)) for (int i = 0; i < NM; i++) audit_srclen(i, what); break; }
+            if (idx >= 0) { if (rc != -EEXIST) vfail("SR.set", "SR.set|dup", "%s: key already present, returned %d instead of -EEXIST", what, rc); check_unchanged(&sn, what, "SR.set|dup-effect"); if (api_depth == 1) last_refused = 1; break; }
+            if (rc) vfail("SR.set", "SR.set|new", "%s: new key, returned %d", what, rc);
+            MD[s].src[freei] = (srcrec_t){ 1, kind, key, flags, 0 };
+            if (kind == K_TMR) mt_set(s, freei, TPER[key], (flags & 2) != 0, MD[s].st == S_RUNNING);
+        } else {
+            rc = src_call(h, kind, key, 0, 0, NULL);
+            if (!legal) { REFUSED(rc, what, "ST.refuse|src"); break; }
+            if (kind == K_TASK) { if (rc >= 0) vfail("SR.set", "SR.set|task-dereg", "a task source was deregistered (returned %d)", rc); check_unchanged(&sn, what, "SR.set|task-dereg"); if (api_depth == 1) last_refused = 1; break; }
+            if (idx < 0) { REFUSED(rc, what, "SR.set|absent"); break; }
+            if (rc) vfail("SR.set", "SR.set|remove", "%s: key present, returned %d", what, rc);
+            if (kind == K_FD && (MD[s].src[idx].flags & 1)) UFD[key].open_rd = 0;
+            MD[s].src[idx].present = 0; if (kind == K_TMR) mt_del(s, idx);
+        }
+        break; }
+    case O_BUCKET: {
+        m_mod_t *h = handle(s); take_snap(&sn);
+        rc = m_mod_set_tokenbucket(h, TBCFG[op.b].rate, TBCFG[op.b].burst);
+        if (!MD[s].present || ctx_hidden()) { REFUSED(rc, "m_mod_set_tokenbucket", "ST.refuse|bucket"); break; }
+        if (rc == -EAGAIN && MD[s].tb_rate > 0) { TBLOG[s].refusals++; break; }      /* reconfiguration itself consumes tokens (source registration) */
+        if (rc) vfail("TB.set", "TB.set", "m_mod_set_tokenbucket(%d,%d) returned %d", TBCFG[op.b].rate, TBCFG[op.b].burst, rc);
+        MD[s].tb_rate = TBCFG[op.b].rate; MD[s].tb_burst = TBCFG[op.b].burst; memset(&TBLOG[s], 0, sizeof TBLOG[s]); TBLOG[s].set_at = shim_now_ns;
         break; }
     /* ------------------------------------------------ environment / user-held */
     case O_ARM: MD[s].armed[op.b >> 5].act = op.b & 31; MD[s].armed[op.b >> 5].arg = op.d; break;
